@@ -321,12 +321,15 @@ class Buffer:
             self.hot[b].observations['transfer'] = None
             return False
         self._add_event(current_obs, "transfer", "started")
+        # An observation without data still has to change tiers: always
+        # make one hand-over pass, which stores it in the ColdBuffer
+        handed_over = False
         while True:
             # data_transfer_time = observation_size / self.cold.max_data_rate
             #
             # time_left = data_transfer_time - 1
 
-            if data_left_to_transfer <= 0:
+            if data_left_to_transfer <= 0 and handed_over:
                 LOGGER.info(
                     "Buffer transfer completed at time %s", self.env.now
                 )
@@ -346,6 +349,7 @@ class Buffer:
             data_left_to_transfer = self.hot[b].transfer_observation(
                 current_obs, rate, data_left_to_transfer
             )
+            handed_over = True
             if check != data_left_to_transfer:
                 raise RuntimeError(
                     "Hot and Cold Buffer receiving data at a differen rate"
@@ -409,8 +413,10 @@ class Buffer:
         self._add_event(current_obs, "transfer", "started")
         # Several moves may be in flight: account for each one's remainder
         self._data_left_to_receive += data_left_to_transfer
+        # As in move_hot_to_cold: one hand-over pass even without data
+        handed_over = False
         while True:
-            if data_left_to_transfer <= 0:
+            if data_left_to_transfer <= 0 and handed_over:
                 LOGGER.info(
                     "Buffer transfer completed at time %s", self.env.now
                 )
@@ -431,6 +437,7 @@ class Buffer:
             data_left_to_transfer = self.cold[b].transfer_observation(
                 current_obs, rate, data_left_to_transfer
             )
+            handed_over = True
             if check != data_left_to_transfer:
                 raise RuntimeError(
                     "Hot and Cold Buffer receiving data at a differen rate"
